@@ -73,6 +73,10 @@ func VerifC07() {
 	ictx := base.NewEmptyEntryContext()
 	ictx.Resource = base.NewResourceWrapper("i", base.ResTypeWeb, base.Inbound)
 	ictx.RuleCheckResult = base.NewTokenResultPass()
+	if rt.Bool("withInput") {
+		// the verdict does not depend on how many tokens the request itself asks for
+		ictx.Input = &base.SentinelInput{BatchCount: rt.U32n("batch", 10)}
+	}
 	res := DefaultAdaptiveSlot.Check(ictx)
 	blocked := res != nil && res.IsBlocked()
 
